@@ -46,6 +46,9 @@ def parts(tier):
     P = [dict(part="BN_P256", cfg="asan256", shards=6 if q else 8),
          dict(part="SM9_P256", cfg="asan256", shards=5 if q else 8),
          dict(part="B12_P381", cfg="asan381", shards=5 if q else 8)]
+    # the pairing through the non-default (non-lazy) Miller-loop step functions: reduced workload
+    P += [dict(part="BN_P256", cfg="asan256ppb", shards=1 if q else 2),
+          dict(part="SM9_P256", cfg="asan256ppb", shards=1 if q else 2)]
     if not q:
         # k = 12 families at other field sizes (the unchanged tree is silent there); the k = 8/16/18/24 families need
         # pp_map_*_k8/k16/k18/k24 with ep4/ep3/ep8 models and are not covered
@@ -212,8 +215,13 @@ def run(ctx, part):
                                "dispatch": {m: R.target(m) for m in ("pc_map", "pc_map_sim")},
                                "measured_nonresidues": {str(d): repr(v) for d, v in W.M.nr.items()},
                                "measurement_problems": [repr(q) for q in W.M.problems]})
-    singles = [f for f in SINGLE if R.has(f)]
-    sims = [f for f in SIM if R.has(f)]
+    light = ctx.cfg == "asan256ppb"      # alternative Miller-loop dispatch: optimal ate entry points, reduced volume
+    singles = [f for f in SINGLE if R.has(f) and (not light or f in ("pc_map", "pp_map_oatep_k12"))]
+    sims = [f for f in SIM if R.has(f) and (not light or f in ("pc_map_sim", "pp_map_sim_oatep_k12"))]
+    ctx.note("miller_step_dispatch_" + ctx.cfg, {m: R.target(m) for m in ("pp_dbl_k12", "pp_add_k12") if R.has(m)})
+
+    def own(k):
+        return ctx.mine(k) and (not light or k % 3 == 0)
     ctx.note("functions_not_built", [f for f in SINGLE + list(SIM) + ["pp_exp_k12"] if not R.has(f)])
     tag = "@%s;p%%8=%d" % (part, W.p % 8)
     szg1, szg2, szgt = K["sizeof_ep_st"], W.sz2, R.fp_sz * 12
@@ -379,7 +387,7 @@ def run(ctx, part):
             # every scalar class in either slot against a generic partner, and the identity/identity pair
             for (a, b) in ((i, SCLS.index("rnd")), (SCLS.index("rnd"), i), (i, i)):
                 n += 1
-                if ctx.mine(n) and (fn == "pc_map" or (a + b) % 3 == 0 or pool1[a][2] is None or pool2[b][2] is None):
+                if own(n) and (fn == "pc_map" or (a + b) % 3 == 0 or pool1[a][2] is None or pool2[b][2] is None):
                     single_case(fn, a, b, rng.choice(REPS), rng.choice(REPS))
     # every pair of representations for every single routine, and each representation in every slot of the multi-pairings
     gi, gj = SCLS.index("rnd"), SCLS.index("small")
@@ -387,7 +395,7 @@ def run(ctx, part):
         for r1 in REPS:
             for r2 in REPS:
                 n += 1
-                if ctx.mine(n):
+                if own(n):
                     single_case(fn, gi, gj, r1, r2)
     for fn in sims:
         for r1 in REPS:
@@ -396,7 +404,7 @@ def run(ctx, part):
                     continue
                 for slot in range(3):
                     n += 1
-                    if ctx.mine(n):
+                    if own(n):
                         rr = [("aff", "aff")] * 3
                         rr[slot] = (r1, r2)
                         sim_case(fn, 3, "none", reps=rr)
@@ -408,10 +416,12 @@ def run(ctx, part):
                 if m == 1 and want == "later":
                     continue
                 n += 1
-                if ctx.mine(n) and (fn == "pc_map_sim" or (m + len(want)) % 2 == 0):
+                if own(n) and (fn == "pc_map_sim" or (m + len(want)) % 2 == 0):
                     sim_case(fn, m, want)
     # ---------------------------------------------------------------- random phase
     N = ctx.n(420, 6000) // ctx.nshards
+    if light:
+        N = ctx.n(45, 500) // ctx.nshards
     if part not in ("BN_P256", "SM9_P256", "B12_P381"):
         N = ctx.n(420, 900) // ctx.nshards          # sweep sizes: slower models
     ws = [WEIGHT[f] for f in singles]
@@ -428,6 +438,101 @@ def run(ctx, part):
             fn = rng.choices(sims, wm)[0]
             m = rng.choice([0, 1, 2, 2, 3, 3, 4, 5, 6, 7, 8])
             sim_case(fn, m, rng.choice(["none", "none", "slot0", "later", "later", "all"]) if m else "none")
+
+    # ---------------------------------------------------------------- Miller-loop step functions, every built variant
+    # pp_dbl_k12_*(l, r, q, p): r = [2]q and the tangent line at p; pp_add_k12_*(l, r, q, p): r = r + q and the chord.
+    # Oracles: the point equals the model's (normalised by the model); the in-place call r == q, which is how every
+    # Miller loop calls the doubling, gives the same line and point as the out-of-place call; variants that share a
+    # coordinate system (projc_basic / projc_lazyr) give the same line and point (differential between variants).
+    szl = szgt
+    l1, l2 = R.fpx_new(12), R.fpx_new(12)
+    T1, T2, Q1 = R.mem(szg2, 0), R.mem(szg2, 0), R.mem(szg2, 0)
+
+    def rd2(ptr):
+        x, y, z, co = W.ep2_get(ptr)
+        canon = all(R.fpx_get(ptr + K[o], 2)[1] for o in ("off_ep2_st_x", "off_ep2_st_y", "off_ep2_st_z"))
+        if W.F2.is_zero(z):
+            return None, canon, co
+        if co == K["BASIC"]:
+            return (x, y), canon, co
+        return (W.E2.from_homog(x, y, z) if co == K["PROJC"] else W.E2.from_jacob(x, y, z)), canon, co
+
+    def line(ptr):
+        return R.fpx_get(ptr, 12)
+
+    def step_case(kind):
+        F2, E2 = W.F2, W.E2
+        s1, s2 = rng.randrange(2, r - 1), rng.randrange(2, r - 1)
+        A = E2.mul(s1, W.G2)                 # the running point T
+        B = E2.mul(s2, W.G2)                 # the point added (affine in the loop)
+        Pm = W.E1.mul(rng.randrange(1, r), W.G1)
+        variants = [f for f in (("pp_dbl_k12_basic", "pp_dbl_k12_projc_basic", "pp_dbl_k12_projc_lazyr", "pp_dbl_k12")
+                                if kind == "dbl" else
+                                ("pp_add_k12_basic", "pp_add_k12_projc_basic", "pp_add_k12_projc_lazyr", "pp_add_k12"))
+                    if R.has(f)]
+        seen = {}
+        raw_t = {}
+        for rp in ("aff", "proj"):
+            ctypes.memset(T1, 0, szg2)
+            W.put2(T1, A, rp)
+            raw_t[rp] = R.get(T1, szg2)          # one representative of T per representation, shared by all variants
+
+        def fields(ptr):
+            return tuple(R.get(ptr + K[o], 2 * R.fp_sz) for o in ("off_ep2_st_x", "off_ep2_st_y", "off_ep2_st_z")) + \
+                (R.rd_int(ptr + K["off_ep2_st_coord"]),)
+        for fn in variants:
+            tgt = R.target(fn)
+            affine = tgt.endswith("k12_basic")
+            rep_t = "aff" if affine else rng.choice(["aff", "proj"])       # the projective steps take T as (X:Y:Z), tag PROJC
+            key = "%s|step|%s" % (fn, rep_t)
+            try:
+                if not ctx.begin(key, {"set": part, "t": hx(s1), "q": hx(s2), "rep": rep_t}, budget=120):
+                    continue
+                W.put1(Pp, Pm, "aff")
+                W.put2(Q1, B, "aff")
+                ctypes.memmove(T1, raw_t[rep_t], szg2)
+                keep = R.get(T1, szg2)
+                ctypes.memset(T2, R.poison, szg2)
+                for lp in (l1, l2):
+                    R.fpx_put(lp, [0] * 12)
+                exp = E2.dbl(A) if kind == "dbl" else E2.add(A, B)
+                if kind == "dbl":
+                    ra = R.call(fn, l1, T2, T1, Pp)          # out of place
+                    ok_in = R.get(T1, szg2) == keep
+                    rb = R.call(fn, l2, T1, T1, Pp)          # in place, as in pp_mil_k12
+                    outs = ((T2, l1, "out-of-place"), (T1, l2, "in-place"))
+                else:
+                    ctypes.memmove(T2, T1, szg2)
+                    ra = R.call(fn, l1, T1, Q1, Pp)
+                    rb = R.call(fn, l2, T2, Q1, Pp)          # the same step again from a copy: deterministic
+                    ok_in = True
+                    outs = ((T1, l1, "first"), (T2, l2, "second"))
+                if not ctx.check(not (ra.caught or rb.caught), "%s|unexpected-error%s" % (key, tag)):
+                    continue
+                ctx.check(ok_in, "%s|input-modified%s" % (key, tag))
+                vals = []
+                for ptr, lp, what in outs:
+                    pt, canon, co = rd2(ptr)
+                    lv, lcanon = line(lp)
+                    ctx.check(E2.eq(pt, exp), "%s|%s|point%s" % (key, what, tag))
+                    ctx.check(canon and lcanon, "%s|%s|canonical%s" % (key, what, tag))
+                    vals.append((fields(ptr), lv))
+                ctx.check(vals[0][1] == vals[1][1], "%s|line-differs-between-aliasing-patterns%s" % (key, tag))
+                ctx.check(vals[0][0] == vals[1][0], "%s|point-differs-between-aliasing-patterns%s" % (key, tag))
+                # variants of the same coordinate system and the same representation of T agree exactly
+                grp = ("aff" if affine else "projc", rep_t)
+                if grp in seen and seen[grp][2] != tgt:
+                    ctx.check(seen[grp][0] == vals[0][1], "%s|line-differs-from-%s%s" % (key, seen[grp][2], tag))
+                elif grp not in seen:
+                    seen[grp] = (vals[0][1], None, tgt)
+            except MonitorViolation as e:
+                ctx.fail("%s|%s" % (key, e.kind), e.detail)
+            finally:
+                ctx.end()
+
+    for it in range(ctx.n(10, 120) if ctx.shard < 2 else ctx.n(3, 40)):
+        step_case("dbl")
+        step_case("add")
 
     # ---------------------------------------------------------------- final exponentiation
     if R.has("pp_exp_k12"):
